@@ -383,14 +383,16 @@ theorem inv_unblock (s : State) (h : Inv s) (sync : Bool) (t : Tag)
         simp only [Bool.false_and, Bool.true_and, Bool.not_true, Bool.not_false, Bool.false_eq_true, if_false,
           if_true, cnt_append, cnt_cons, cnt_nil, e] <;> omega
 
-theorem inv_clear (s : State) (h : Inv s) (tc qc : Bool) :
-    Inv { s with topicClosed := tc, queueClosed := qc, high := [], low := [] } := by
+/-- a step that touches neither the objects nor the five lists. -/
+theorem inv_congr {s s' : State} (h : Inv s) (ho : s'.objs = s.objs) (h1 : s'.high = s.high)
+    (h2 : s'.low = s.low) (h3 : s'.held = s.held) (h4 : s'.blockedHigh = s.blockedHigh)
+    (h5 : s'.blockedLow = s.blockedLow) : Inv s' := by
   constructor
-  · exact h.buf
-  · intro t ht; simp at ht
-  · exact h.held
-  · exact h.blk
-  · intro x; have := h.uniq x; unfold total at *; simp only [cnt_nil]; omega
+  · rw [ho]; exact h.buf
+  · rw [ho, h1, h2]; exact h.chan
+  · rw [ho, h3]; exact h.held
+  · rw [ho, h4, h5]; exact h.blk
+  · intro o; have := h.uniq o; unfold total at *; rw [h1, h2, h3, h4, h5]; exact this
 
 end C36
 
@@ -460,7 +462,7 @@ theorem inv_step (s : State) (h : Inv s) (l : Label) (hd : l.disciplined = true)
             · simp only [Option.some.injEq, Prod.mk.injEq] at hs; rw [← hs.1]
               exact inv_add s h o hp .bhigh
         · simp at hs
-  | unblock t sync =>
+  | unblock t sync viaDone =>
     simp only [step] at hs
     cases sync
     · simp only [Bool.false_eq_true, if_false] at hs
@@ -468,9 +470,11 @@ theorem inv_step (s : State) (h : Inv s) (l : Label) (hd : l.disciplined = true)
       · rename_i hc
         have ht : t ∈ s.blockedLow := by simpa using hc
         split at hs
-        · simp only [Option.some.injEq, Prod.mk.injEq] at hs; rw [← hs.1]
-          have := inv_unblock s h false t (by simpa using ht) false
-          simpa using this
+        · split at hs
+          · simp only [Option.some.injEq, Prod.mk.injEq] at hs; rw [← hs.1]
+            have := inv_unblock s h false t (by simpa using ht) false
+            simpa using this
+          · simp at hs
         · split at hs
           · simp only [Option.some.injEq, Prod.mk.injEq] at hs; rw [← hs.1]
             have := inv_unblock s h false t (by simpa using ht) true
@@ -482,9 +486,11 @@ theorem inv_step (s : State) (h : Inv s) (l : Label) (hd : l.disciplined = true)
       · rename_i hc
         have ht : t ∈ s.blockedHigh := by simpa using hc
         split at hs
-        · simp only [Option.some.injEq, Prod.mk.injEq] at hs; rw [← hs.1]
-          have := inv_unblock s h true t (by simpa using ht) false
-          simpa using this
+        · split at hs
+          · simp only [Option.some.injEq, Prod.mk.injEq] at hs; rw [← hs.1]
+            have := inv_unblock s h true t (by simpa using ht) false
+            simpa using this
+          · simp at hs
         · split at hs
           · simp only [Option.some.injEq, Prod.mk.injEq] at hs; rw [← hs.1]
             have := inv_unblock s h true t (by simpa using ht) true
@@ -495,17 +501,15 @@ theorem inv_step (s : State) (h : Inv s) (l : Label) (hd : l.disciplined = true)
     simp only [step] at hs
     split at hs
     · simp at hs
-    · split at hs
-      · simp at hs
-      · rename_i t rest hl
-        simp only [Option.some.injEq, Prod.mk.injEq] at hs; rw [← hs.1]
-        have hmem : t ∈ s.high ++ s.low := by
-          cases fromHigh
-          · simp only [Bool.false_eq_true, if_false] at hl; simp [hl]
-          · simp only [if_true] at hl; simp [hl]
-        obtain ⟨hg, hq⟩ := h.chan t hmem
-        have := inv_take s h fromHigh t rest hl
-        simpa [hg, hq] using this
+    · rename_i t rest hl
+      simp only [Option.some.injEq, Prod.mk.injEq] at hs; rw [← hs.1]
+      have hmem : t ∈ s.high ++ s.low := by
+        cases fromHigh
+        · simp only [Bool.false_eq_true, if_false] at hl; simp [hl]
+        · simp only [if_true] at hl; simp [hl]
+      obtain ⟨hg, hq⟩ := h.chan t hmem
+      have := inv_take s h fromHigh t rest hl
+      simpa [hg, hq] using this
   | reply t =>
     simp only [step] at hs
     split at hs
@@ -518,29 +522,392 @@ theorem inv_step (s : State) (h : Inv s) (l : Label) (hd : l.disciplined = true)
         have := inv_answer s h t ht
         simpa [hg, hq] using this
     · simp at hs
-  | wait o =>
+  | wait o viaDone =>
     simp only [step] at hs
     split at hs
-    · rename_i t hb
-      simp only [Option.some.injEq, Prod.mk.injEq] at hs; rw [← hs.1]
-      have hr := (h.buf o t hb).2
-      apply inv_upd_idle s h o _ (by rw [hr]; decide) (by rw [hr]; decide) (by rw [hr]; decide)
-      intro u hu; simp at hu
     · split at hs
       · simp only [Option.some.injEq, Prod.mk.injEq] at hs; rw [← hs.1]; exact h
       · simp at hs
+    · split at hs
+      · rename_i t hb
+        simp only [Option.some.injEq, Prod.mk.injEq] at hs; rw [← hs.1]
+        have hr := (h.buf o t hb).2
+        apply inv_upd_idle s h o _ (by rw [hr]; decide) (by rw [hr]; decide) (by rw [hr]; decide)
+        intro u hu; simp at hu
+      · simp at hs
   | timeout o =>
+    simp only [step, Option.some.injEq, Prod.mk.injEq] at hs; rw [← hs.1]; exact h
+  | closeTopic =>
+    simp only [step, Option.some.injEq, Prod.mk.injEq] at hs; rw [← hs.1]
+    exact inv_congr h rfl rfl rfl rfl rfl rfl
+  | closeQueue =>
+    simp only [step, Option.some.injEq, Prod.mk.injEq] at hs; rw [← hs.1]
+    exact inv_congr h rfl rfl rfl rfl rfl rfl
+  | subReq =>
+    simp only [step] at hs
+    split at hs <;> (simp only [Option.some.injEq, Prod.mk.injEq] at hs; rw [← hs.1])
+    · exact h
+    · exact inv_congr h rfl rfl rfl rfl rfl rfl
+  | closeEnter =>
+    simp only [step] at hs
+    split at hs <;> (simp only [Option.some.injEq, Prod.mk.injEq] at hs; rw [← hs.1])
+    · exact h
+    · exact inv_congr h rfl rfl rfl rfl rfl rfl
+  | closeDone =>
+    simp only [step] at hs
+    split at hs
+    · simp at hs
+    · split at hs <;> (simp only [Option.some.injEq, Prod.mk.injEq] at hs; rw [← hs.1]) <;>
+        exact inv_congr h rfl rfl rfl rfl rfl rfl
+  | closeFinish =>
+    simp only [step] at hs
+    split at hs
+    · simp at hs
+    · split at hs <;> (simp only [Option.some.injEq, Prod.mk.injEq] at hs; rw [← hs.1]) <;>
+        exact inv_congr h rfl rfl rfl rfl rfl rfl
+
+end C36
+
+/-! ### History: a request, once handed to the subscriber, never becomes receivable again -/
+namespace C36
+
+/-- phases that follow `queued` within one generation. -/
+def After (p : Phase) : Prop := p = .held ∨ p = .replied ∨ p = .done ∨ p = .pooled
+
+/-- `t` lies in the past of its object: the object moved on to a later generation, or it is in a phase
+that follows `queued` within the same generation. -/
+def Past (s : State) (t : Tag) : Prop :=
+  t.gen < (s.objs t.obj).gen ∨ (t.gen = (s.objs t.obj).gen ∧ After (s.objs t.obj).phase)
+
+/-- an object only moves forward: later generation, or same generation and `After` is kept. -/
+def ObjLe (a b : ObjSt) : Prop := a.gen < b.gen ∨ (a.gen = b.gen ∧ (After a.phase → After b.phase))
+
+theorem ObjLe.refl (a : ObjSt) : ObjLe a a := Or.inr ⟨rfl, id⟩
+
+theorem objle_upd (f : Obj → ObjSt) (o : Obj) (v : ObjSt) (h : ObjLe (f o) v) : ∀ x, ObjLe (f x) (upd f o v x) := by
+  intro x
+  by_cases e : x = o
+  · subst e; simpa using h
+  · rw [upd_other _ _ _ _ e]; exact ObjLe.refl _
+
+theorem past_mono {s s' : State} {t : Tag} (h : ObjLe (s.objs t.obj) (s'.objs t.obj)) (hp : Past s t) : Past s' t := by
+  unfold Past at *
+  rcases h with h | ⟨hg, ha⟩
+  · rcases hp with hp | ⟨hp, _⟩
+    · exact Or.inl (Nat.lt_trans hp h)
+    · exact Or.inl (hp ▸ h)
+  · rcases hp with hp | ⟨hp, hq⟩
+    · exact Or.inl (hg ▸ hp)
+    · exact Or.inr ⟨hp.trans hg, ha hq⟩
+
+/-- every step (disciplined or not) of a state satisfying the invariant moves every object forward. -/
+theorem step_objle (s : State) (h : Inv s) (l : Label) (s' : State) (out : Out)
+    (hs : step s l = some (s', out)) : ∀ x, ObjLe (s.objs x) (s'.objs x) := by
+  cases l with
+  | new o =>
+    simp only [step] at hs
+    split at hs
+    · simp only [Option.some.injEq, Prod.mk.injEq] at hs; rw [← hs.1]
+      exact objle_upd _ _ _ (Or.inl (Nat.lt_succ_self _))
+    · simp at hs
+  | free o d =>
     simp only [step] at hs
     split at hs
     · simp at hs
     · split at hs
-      · simp only [Option.some.injEq, Prod.mk.injEq] at hs; rw [← hs.1]; exact h
       · simp at hs
+      · simp only [Option.some.injEq, Prod.mk.injEq] at hs; rw [← hs.1]
+        exact objle_upd _ _ _ (Or.inr ⟨rfl, fun _ => Or.inr (Or.inr (Or.inr rfl))⟩)
+  | send o sync =>
+    simp only [step] at hs
+    split at hs
+    · simp only [Option.some.injEq, Prod.mk.injEq] at hs; rw [← hs.1]; exact fun x => ObjLe.refl _
+    · split at hs
+      · simp only [Option.some.injEq, Prod.mk.injEq] at hs; rw [← hs.1]; exact fun x => ObjLe.refl _
+      · split at hs
+        · rename_i hp
+          have hna : ¬ After (s.objs o).phase := by rw [hp]; simp [After]
+          cases sync
+          · simp only [Bool.false_eq_true, if_false] at hs
+            split at hs <;> (simp only [Option.some.injEq, Prod.mk.injEq] at hs; rw [← hs.1]) <;>
+              exact objle_upd _ _ _ (Or.inr ⟨rfl, fun a => absurd a hna⟩)
+          · simp only [if_true] at hs
+            split at hs <;> (simp only [Option.some.injEq, Prod.mk.injEq] at hs; rw [← hs.1]) <;>
+              exact objle_upd _ _ _ (Or.inr ⟨rfl, fun a => absurd a hna⟩)
+        · simp at hs
+  | unblock t sync viaDone =>
+    simp only [step] at hs
+    have key : t ∈ s.blockedHigh ++ s.blockedLow → ¬ After (s.objs t.obj).phase := by
+      intro hm; rw [(h.blk t hm).2]; simp [After]
+    cases sync
+    · simp only [Bool.false_eq_true, if_false] at hs
+      split at hs
+      · rename_i hc
+        have hna := key (by simp [show t ∈ s.blockedLow by simpa using hc])
+        split at hs <;> split at hs <;>
+          first
+          | (simp at hs; done)
+          | (simp only [Option.some.injEq, Prod.mk.injEq] at hs; rw [← hs.1]
+             exact objle_upd _ _ _ (Or.inr ⟨rfl, fun a => absurd a hna⟩))
+      · simp at hs
+    · simp only [if_true] at hs
+      split at hs
+      · rename_i hc
+        have hna := key (by simp [show t ∈ s.blockedHigh by simpa using hc])
+        split at hs <;> split at hs <;>
+          first
+          | (simp at hs; done)
+          | (simp only [Option.some.injEq, Prod.mk.injEq] at hs; rw [← hs.1]
+             exact objle_upd _ _ _ (Or.inr ⟨rfl, fun a => absurd a hna⟩))
+      · simp at hs
+  | recv fromHigh =>
+    simp only [step] at hs
+    split at hs
+    · simp at hs
+    · rename_i t rest hl
+      simp only [Option.some.injEq, Prod.mk.injEq] at hs; rw [← hs.1]
+      show ∀ x, ObjLe (s.objs x) ((if (s.objs t.obj).gen = t.gen ∧ (s.objs t.obj).phase = .queued
+          then upd s.objs t.obj { s.objs t.obj with phase := .held } else s.objs) x)
+      split
+      · rename_i hc
+        exact objle_upd _ _ _ (Or.inr ⟨rfl, fun _ => Or.inl rfl⟩)
+      · exact fun x => ObjLe.refl _
+  | reply t =>
+    simp only [step] at hs
+    split at hs
+    · split at hs
+      · simp at hs
+      · simp only [Option.some.injEq, Prod.mk.injEq] at hs; rw [← hs.1]
+        refine objle_upd _ _ _ (Or.inr ⟨rfl, fun a => ?_⟩)
+        show After (if (s.objs t.obj).gen = t.gen ∧ (s.objs t.obj).phase = .held then Phase.replied else (s.objs t.obj).phase)
+        split
+        · exact Or.inr (Or.inl rfl)
+        · exact a
+    · simp at hs
+  | wait o viaDone =>
+    simp only [step] at hs
+    split at hs
+    · split at hs
+      · simp only [Option.some.injEq, Prod.mk.injEq] at hs; rw [← hs.1]; exact fun x => ObjLe.refl _
+      · simp at hs
+    · split at hs
+      · simp only [Option.some.injEq, Prod.mk.injEq] at hs; rw [← hs.1]
+        refine objle_upd _ _ _ (Or.inr ⟨rfl, fun a => ?_⟩)
+        show After (if (s.objs o).phase = .replied then Phase.done else (s.objs o).phase)
+        split
+        · exact Or.inr (Or.inr (Or.inl rfl))
+        · exact a
+      · simp at hs
+  | timeout o =>
+    simp only [step, Option.some.injEq, Prod.mk.injEq] at hs; rw [← hs.1]; exact fun x => ObjLe.refl _
   | closeTopic =>
-    simp only [step, Option.some.injEq, Prod.mk.injEq] at hs; rw [← hs.1]
-    exact inv_clear s h true s.queueClosed
+    simp only [step, Option.some.injEq, Prod.mk.injEq] at hs; rw [← hs.1]; exact fun x => ObjLe.refl _
   | closeQueue =>
-    simp only [step, Option.some.injEq, Prod.mk.injEq] at hs; rw [← hs.1]
-    exact inv_clear s h true true
+    simp only [step, Option.some.injEq, Prod.mk.injEq] at hs; rw [← hs.1]; exact fun x => ObjLe.refl _
+  | subReq =>
+    simp only [step] at hs
+    split at hs <;> (simp only [Option.some.injEq, Prod.mk.injEq] at hs; rw [← hs.1]) <;> exact fun x => ObjLe.refl _
+  | closeEnter =>
+    simp only [step] at hs
+    split at hs <;> (simp only [Option.some.injEq, Prod.mk.injEq] at hs; rw [← hs.1]) <;> exact fun x => ObjLe.refl _
+  | closeDone =>
+    simp only [step] at hs
+    split at hs
+    · simp at hs
+    · split at hs <;> (simp only [Option.some.injEq, Prod.mk.injEq] at hs; rw [← hs.1]) <;> exact fun x => ObjLe.refl _
+  | closeFinish =>
+    simp only [step] at hs
+    split at hs
+    · simp at hs
+    · split at hs <;> (simp only [Option.some.injEq, Prod.mk.injEq] at hs; rw [← hs.1]) <;> exact fun x => ObjLe.refl _
+
+/-- what a `recv` hands out was receivable (current generation, `queued`), and is in the past afterwards. -/
+theorem recv_past (s : State) (h : Inv s) (b : Bool) (t : Tag) (s' : State)
+    (hs : step s (.recv b) = some (s', .tag t)) :
+    ((s.objs t.obj).gen = t.gen ∧ (s.objs t.obj).phase = .queued) ∧ ¬ Past s t ∧ Past s' t := by
+  simp only [step] at hs
+  split at hs
+  · simp at hs
+  · rename_i u rest hl
+    simp only [Option.some.injEq, Prod.mk.injEq, Out.tag.injEq] at hs
+    obtain ⟨hs', rfl⟩ := hs
+    have hmem : u ∈ s.high ++ s.low := by
+      cases b
+      · simp only [Bool.false_eq_true, if_false] at hl; simp [hl]
+      · simp only [if_true] at hl; simp [hl]
+    obtain ⟨hg, hq⟩ := h.chan u hmem
+    refine ⟨⟨hg, hq⟩, ?_, ?_⟩
+    · unfold Past; rw [hg, hq]; simp [After]
+    · rw [← hs']; unfold Past
+      simp [hg, hq, After]
+
+/-- the tags handed out by the `recv` labels of a trace, in order. -/
+def recvTags : List Label → List Out → List Tag
+  | .recv _ :: ls, .tag t :: os => t :: recvTags ls os
+  | _ :: ls, _ :: os => recvTags ls os
+  | _, _ => []
+
+theorem recvTags_cons_not_recv (l : Label) (o : Out) (ls : List Label) (os : List Out)
+    (h : ∀ b, l ≠ .recv b) : recvTags (l :: ls) (o :: os) = recvTags ls os := by
+  cases l <;> first | rfl | exact absurd rfl (h _)
+
+/-- along any disciplined run from a state satisfying the invariant: the received tags are pairwise
+distinct, and none of them lay in the past at the start. -/
+theorem run_recv_nodup : ∀ (ls : List Label) (s s' : State) (os : List Out), Inv s →
+    (∀ l ∈ ls, l.disciplined = true) → run s ls = some (s', os) →
+    (recvTags ls os).Nodup ∧ ∀ t ∈ recvTags ls os, ¬ Past s t := by
+  intro ls
+  induction ls with
+  | nil => intro s s' os _ _ hr; simp only [run, Option.some.injEq, Prod.mk.injEq] at hr; rw [← hr.2]; simp [recvTags]
+  | cons l ls ih =>
+    intro s s' os hi hd hr
+    simp only [run] at hr
+    split at hr
+    · simp at hr
+    · rename_i s1 o hst
+      split at hr
+      · simp at hr
+      · rename_i s2 os' hrun
+        simp only [Option.some.injEq, Prod.mk.injEq] at hr
+        obtain ⟨-, rfl⟩ := hr
+        have hi1 := inv_step s hi l (hd l List.mem_cons_self) s1 o hst
+        obtain ⟨hnd, hnp⟩ := ih s1 s2 os' hi1 (fun l' hl' => hd l' (List.mem_cons_of_mem _ hl')) hrun
+        have hle := step_objle s hi l s1 o hst
+        have back : ∀ t ∈ recvTags ls os', ¬ Past s t := fun t ht hp => hnp t ht (past_mono (hle t.obj) hp)
+        by_cases hrecv : ∃ b, l = .recv b
+        · obtain ⟨b, rfl⟩ := hrecv
+          cases o with
+          | tag t =>
+            obtain ⟨-, hn, hp⟩ := recv_past s hi b t s1 hst
+            simp only [recvTags, List.nodup_cons, List.mem_cons]
+            refine ⟨⟨fun hm => hnp t hm hp, hnd⟩, ?_⟩
+            intro u hu
+            rcases hu with rfl | hu
+            · exact hn
+            · exact back u hu
+          | _ => exact ⟨hnd, back⟩
+        · have hne : ∀ b, l ≠ .recv b := fun b e => hrecv ⟨b, e⟩
+          rw [recvTags_cons_not_recv l o ls os' hne]
+          exact ⟨hnd, back⟩
+
+end C36
+
+/-! ### The requester's `Close`: counters and the panic -/
+namespace C36
+
+def Label.isClose : Label → Bool
+  | .closeEnter | .closeDone | .closeFinish => true
+  | _ => false
+
+structure CInv (s : State) : Prop where
+  notDone : s.clientDone = false → s.closersB = 0 ∧ s.clientClosed = false
+  bLe : s.closersB ≤ 1
+  bOpen : s.closersB = 1 → s.clientClosed = false
+  /-- as long as no two `Close` calls overlapped: at most one is in flight, it has not met a closed
+  `done`, and between calls `done` is closed only if the client is marked closed. -/
+  serial : s.closeOverlap = false → s.closersA + s.closersB ≤ 1 ∧ (s.closersA = 1 → s.clientDone = false) ∧
+      (s.closersA + s.closersB = 0 → s.clientDone = true → s.clientClosed = true)
+
+theorem close_frame (s s' : State) (l : Label) (out : Out) (hs : step s l = some (s', out))
+    (hl : l.isClose = false) :
+    s'.closersA = s.closersA ∧ s'.closersB = s.closersB ∧ s'.clientDone = s.clientDone ∧
+    s'.clientClosed = s.clientClosed ∧ s'.closeOverlap = s.closeOverlap := by
+  cases l <;> first
+    | (exact absurd hl (by decide))
+    | (simp only [step] at hs
+       repeat' split at hs
+       all_goals first
+         | (simp at hs; done)
+         | (simp only [Option.some.injEq, Prod.mk.injEq] at hs; rw [← hs.1]; simp))
+
+theorem panic_only_close (s s' : State) (l : Label) (hs : step s l = some (s', .panic)) :
+    l = .closeDone ∨ l = .closeFinish := by
+  cases l <;> first
+    | (exact Or.inl rfl)
+    | (exact Or.inr rfl)
+    | (simp only [step] at hs
+       repeat' split at hs
+       all_goals (simp at hs))
+
+theorem cinv_step (s : State) (h : CInv s) (l : Label) (s' : State) (out : Out)
+    (hs : step s l = some (s', out)) : CInv s' := by
+  by_cases hl : l.isClose = false
+  · obtain ⟨e1, e2, e3, e4, e5⟩ := close_frame s s' l out hs hl
+    constructor
+    · rw [e2, e3, e4]; exact h.notDone
+    · rw [e2]; exact h.bLe
+    · rw [e2, e4]; exact h.bOpen
+    · rw [e1, e2, e3, e4, e5]; exact h.serial
+  · have hnd := h.notDone; have hb := h.bLe; have hbo := h.bOpen; have hse := h.serial
+    cases l <;> first
+      | (exact absurd rfl hl)
+      | skip
+    · -- closeEnter
+      simp only [step] at hs
+      split at hs <;> (simp only [Option.some.injEq, Prod.mk.injEq] at hs; rw [← hs.1])
+      · exact h
+      · rename_i hc
+        simp only [Bool.or_eq_true, Bool.not_eq_true', not_or] at hc
+        constructor
+        · exact hnd
+        · exact hb
+        · exact hbo
+        · intro ho
+          simp only [Bool.or_eq_false_iff, decide_eq_false_iff_not, Nat.not_lt, Nat.le_zero_eq] at ho
+          obtain ⟨ho1, ho2⟩ := ho
+          obtain ⟨_, _, h3⟩ := hse ho1
+          have hcd : s.clientDone = false := by
+            cases hd : s.clientDone
+            · rfl
+            · have := h3 ho2 hd; simp [this] at hc
+          refine ⟨by simp only; omega, fun _ => hcd, fun hz => ?_⟩
+          simp only at hz; omega
+    · -- closeDone
+      simp only [step] at hs
+      split at hs
+      · simp at hs
+      · rename_i a ha
+        split at hs <;> (simp only [Option.some.injEq, Prod.mk.injEq] at hs; rw [← hs.1])
+        · rename_i hd
+          constructor
+          · exact hnd
+          · exact hb
+          · exact hbo
+          · intro ho
+            obtain ⟨h1, h2, _⟩ := hse ho
+            have : s.closersA = 1 := by omega
+            simp [h2 this] at hd
+        · rename_i hd
+          have hd' : s.clientDone = false := by simpa using hd
+          obtain ⟨hb0, hcc⟩ := hnd hd'
+          constructor
+          · intro hx; simp at hx
+          · simp only; omega
+          · intro _; exact hcc
+          · intro ho
+            obtain ⟨h1, _, _⟩ := hse ho
+            refine ⟨by simp only; omega, fun ha1 => ?_, fun hz => ?_⟩
+            · simp only at ha1; omega
+            · simp only at hz; omega
+    · -- closeFinish
+      simp only [step] at hs
+      split at hs
+      · simp at hs
+      · rename_i b hbq
+        split at hs <;> (simp only [Option.some.injEq, Prod.mk.injEq] at hs; rw [← hs.1])
+        · rename_i hcc
+          have : s.closersB = 1 := by omega
+          simp [hbo this] at hcc
+        · have hb1 : b = 0 := by omega
+          subst hb1
+          constructor
+          · intro hx
+            have := (hnd hx).1; omega
+          · simp
+          · intro hx; simp at hx
+          · intro ho
+            obtain ⟨h1, h2, _⟩ := hse ho
+            refine ⟨by simp only; omega, fun ha1 => ?_, fun _ _ => rfl⟩
+            simp only at ha1; omega
 
 end C36
